@@ -5,7 +5,9 @@ package linkpair
 
 import (
 	"fmt"
+	"net/netip"
 	"runtime/debug"
+	"sync"
 
 	"github.com/mycoria/mycoria/config"
 	"github.com/mycoria/mycoria/frame"
@@ -117,4 +119,60 @@ func Dial(cn *simnet.ConnNet, client, server *Stack) *Attempt {
 	}()
 	simnet.Wait()
 	return a
+}
+
+// ---- "sim" peering protocol for real top-level instances (C20) ----
+
+// Fabric connects sim:// listeners and dialers through a ConnNet.
+type Fabric struct {
+	CN        *simnet.ConnNet
+	mu        sync.Mutex
+	listeners map[string]*simnet.SimListener
+	Dials     int
+	DialFails int
+}
+
+// NewFabric returns an empty fabric.
+func NewFabric(cn *simnet.ConnNet) *Fabric {
+	return &Fabric{CN: cn, listeners: map[string]*simnet.SimListener{}}
+}
+
+type simProtocol struct{ f *Fabric }
+
+// Protocol returns the peering.Protocol to register with AddProtocol("sim", ...).
+func (f *Fabric) Protocol() peering.Protocol { return simProtocol{f} }
+
+func (sp simProtocol) Name() string { return "sim" }
+
+// PeerWith does what protocol_tcp.go does after dialing: run the shipped link
+// setup on the new connection.
+func (sp simProtocol) PeerWith(p *peering.Peering, u *m.PeeringURL, ip netip.Addr) (peering.Link, error) {
+	sp.f.mu.Lock()
+	ln := sp.f.listeners[u.Domain]
+	sp.f.Dials++
+	sp.f.mu.Unlock()
+	if ln == nil {
+		sp.f.mu.Lock()
+		sp.f.DialFails++
+		sp.f.mu.Unlock()
+		return nil, fmt.Errorf("connect to %s: connection refused", u.Domain)
+	}
+	pair := sp.f.CN.NewPair("dial:" + u.Domain)
+	if !ln.Offer(pair.B) {
+		_ = pair.A.Close()
+		sp.f.mu.Lock()
+		sp.f.DialFails++
+		sp.f.mu.Unlock()
+		return nil, fmt.Errorf("connect to %s: connection refused", u.Domain)
+	}
+	return p.VerifSetupLink(pair.A, u, true)
+}
+
+// StartListener does what protocol_tcp.go does after binding.
+func (sp simProtocol) StartListener(p *peering.Peering, u *m.PeeringURL, ip netip.Addr) (peering.Listener, error) {
+	ln := simnet.NewListener(u.Domain)
+	sp.f.mu.Lock()
+	sp.f.listeners[u.Domain] = ln
+	sp.f.mu.Unlock()
+	return p.VerifStartListener(u.String(), ln, u), nil
 }
